@@ -8,6 +8,9 @@ Three kinds of cases
   custom  other rotation grids G ++ -G (random upper-hemisphere quaternion sets: uniform, equatorial band = many pairs that
           touch only through the antipodal copy, cap, permuted library grids = another point at index 0), through
           HalfRotobjVoronoi directly
+  poly    the area code alone: spherical polygons (tiny faces down to diameter 2e-6, the faces that made the pre-repair
+          Girard sum negative, ordinary and near-degenerate ones) through sort_points_on_sphere_ccw +
+          exact_area_of_spherical_polygon; oracle = fan of van Oosterom-Strackee triangle areas
   synth   the fold alone: a real HalfRotobjVoronoi whose full-sphere matrix is replaced (in the harness only) by a synthetic
           matrix: symmetric + antipodally symmetric ones (the statement applies), wild ones (asymmetric, negative, explicit
           zeros, Boolean), grids with missing antipodes, all four flag combinations
@@ -40,7 +43,7 @@ try:    # the per-pair geometry is thousands of tiny matrix products: BLAS threa
 except Exception:      # noqa: BLE001
     pass
 
-RULE = ("grid: cube4D and randomQ, quick N in {4..12,17}, thorough every N in 4..60 and {80,120,200,272}; custom: random "
+RULE = ("grid: cube4D and randomQ, quick N in {4..12,17}, thorough every N in 4..60 and {80,120,200,272} (+ randomQ_315); custom: random "
         "double covers (uniform / equatorial band / cap / permuted library grid), N in 4..14 (thorough ..40), seeds from "
         "VERIF_SEED; synth: random 2N x 2N full-sphere matrices on real Voronoi objects, N in 4..7. A grid case is distinct by "
         "its point set and non-trivial when at least one pair of rotations is adjacent only through the antipodal copy; a "
@@ -51,11 +54,12 @@ GETTER = {"adjacency": "get_voronoi_adjacency", "border_len": "get_cell_borders"
 
 T_ADJ = 1e-6          # LP margin above which a common face certainly exists
 T_NON = 1e-9          # LP margin below which it certainly does not (observed: >= 1.2e-3 or <= 0)
-AREA_TOL = 2e-3       # the implementation rounds cosines to 7 decimals before arccos (DESIGN 5.4)
+AREA_TOL = 1e-10      # since a2316f0 the angles keep full precision: observed max deviation 6e-14 over 151k faces
 DIST_TOL = 1e-9
 HYP_MODEL_MAX_N = 60   # the Lean validators are cubic in 2N (list indexing)
-AREA_MODEL_TOL = 1e-5   # Float model of the area code vs the implementation
-BORDER_SYM_TOL = 1e-5  # the two congruent faces behind B[i,j] and B[j,i] are measured separately (7-decimal rounding)
+AREA_MODEL_TOL = 1e-11  # Float model of the area code vs the implementation (no rounding step any more)
+BORDER_SYM_TOL = 1e-12  # the two congruent faces behind B[i,j] and B[j,i] are measured separately (observed <= 7e-15)
+POLY_TOL = 2e-14       # polygon areas vs the triangle-fan oracle (absolute; both sides subtract multiples of pi)
 
 
 # ------------------------------------------------------------------------------------------------------------------
@@ -109,13 +113,15 @@ def quick_N():
 
 
 def thorough_N():
-    return list(range(4, 61)) + [80, 120, 200, 272]
+    return list(range(4, 61)) + [80, 120, 200, 272, 315]
 
 
 def grid_cases(ctx):
     Ns = quick_N() if ctx.quick else thorough_N()
     for N in Ns:
         for alg in ("cube4D", "randomQ"):
+            if N == 315 and alg == "cube4D":
+                continue        # 315 is the randomQ witness of F13 (cube4D_315 needs the 2080-node subdivision: 10 min)
             yield {"kind": "grid", "alg": alg, "N": N}
 
 
@@ -182,11 +188,46 @@ def synth_cases(ctx):
                    "sel": SELS[int(rng.integers(0, 3))]}
 
 
+def poly_cases(ctx):
+    """convex spherical polygons on the unit 2-sphere, vertices in random order"""
+    rng = ctx.nprng("poly")
+    n = 140 if ctx.quick else 2500
+    for t in range(n):
+        delta = float(10 ** rng.uniform(-6, 0.1)) if t % 3 else float(rng.choice([1e-6, 3e-6, 1e-5, 3e-5, 1e-4, 1e-3]))
+        delta = min(delta, 1.2)
+        k = int(rng.integers(3, 9))
+        c = _unit(rng.normal(size=(1, 3)))[0]
+        e1 = np.cross(c, rng.normal(size=3)); e1 /= np.linalg.norm(e1)
+        e2 = np.cross(c, e1)
+        for _ in range(50):
+            ang = np.sort(rng.uniform(0, 2 * np.pi, size=k))
+            gaps = np.diff(np.append(ang, ang[0] + 2 * np.pi))
+            if gaps.max() < 0.9 * np.pi and gaps.min() > 0.05:
+                break
+        else:
+            continue
+        rad = delta * (1 if t % 2 else rng.uniform(0.6, 1.0, size=k))       # on a small circle (convex) or inside it
+        pts = c[None, :] + (rad * np.cos(ang))[:, None] * e1 + (rad * np.sin(ang))[:, None] * e2
+        pts = _unit(pts)
+        if t % 2 == 0 and not _convex(pts):
+            continue
+        pts = pts[rng.permutation(k)]
+        yield {"kind": "poly", "src": f"generated delta={delta:.2e}", "pts": pts.tolist()}
+
+
+def _convex(pts):
+    """vertices (in angular order) form a strictly convex spherical polygon"""
+    k = len(pts)
+    s = [np.dot(np.cross(pts[i - 1], pts[i]), pts[(i + 1) % k]) for i in range(k)]
+    return all(x > 0 for x in s) or all(x < 0 for x in s)
+
+
 def cases(ctx):
     if not ctx.quick:
         _prefetch(ctx, list(grid_cases(ctx)) + list(custom_cases(ctx)))
     yield from grid_cases(ctx)
     yield from custom_cases(ctx)
+    yield from poly_cases(ctx)
     if _cpu:
         ctx.extra_cov["pool_cpu_s"] = {"total": round(sum(_cpu), 1), "max_single_grid": round(max(_cpu), 1), "grids": len(_cpu)}
     yield from synth_cases(ctx)
@@ -363,7 +404,8 @@ def _area_inputs(out):
             pts = np.dot(shared, vh.T)[:, :-1]
         except Exception:      # noqa: BLE001
             continue
-        res.append((a, b, [[core.fbits(x) for x in r] for r in pts], val[(a, b)], int(np.linalg.matrix_rank(shared))))
+        res.append((a, b, [[core.fbits(x) for x in r] for r in pts], val[(a, b)],
+                    [core.fbits(x) for x in np.linalg.svd(shared, compute_uv=False)]))
     return res
 
 
@@ -390,9 +432,21 @@ def _prefetch(ctx, case_list):
     ctx.note("thorough: grid construction and per-pair geometry run in a 16-process pool")
 
 
+def impl_poly(case):
+    from molgri.space.utils import exact_area_of_spherical_polygon, sort_points_on_sphere_ccw
+    pts = np.array(case["pts"], dtype=float)
+    try:
+        with core.quiet():
+            return {"area": float(exact_area_of_spherical_polygon(sort_points_on_sphere_ccw(pts))), "pts": pts}
+    except Exception as e:      # noqa: BLE001
+        return {"err": core.errname(e), "pts": pts}
+
+
 def impl(case):
     if case["kind"] == "synth":
         return impl_synth(case)
+    if case["kind"] == "poly":
+        return impl_poly(case)
     k = _case_key(case)
     out = _cache.pop(k, None)
     if out is None:
@@ -469,6 +523,8 @@ def _sparse(M):
 
 
 def model_ops(case, out):
+    if case["kind"] == "poly":
+        return [{"op": "area", "pts": [[core.fbits(x) for x in r] for r in out["pts"]]}]
     P = out["P"]
     grid = _rows(P)
     if case["kind"] == "synth":
@@ -490,8 +546,8 @@ def model_ops(case, out):
             ops.append({"op": "half", "grid": grid, "A": _sparse(F), "guard": "len", "include_opp": io, "only_upper": ou})
     for a, b, th, d in out["qd"]:
         ops.append({"op": "quatdist", "pi": core.rat(math.pi), "theta": core.rat(th)})
-    for a, b, pts, val, rank in out["area_in"]:
-        ops.append({"op": "area", "pts": pts, "rank": rank})
+    for a, b, pts, val, sing in out["area_in"]:
+        ops.append({"op": "area", "pts": pts, "sing": sing})
     if out["N"] <= HYP_MODEL_MAX_N and not isinstance(out["full"]["adjacency"], dict):
         ops.append({"op": "hyp", "grid": grid, "A": _sparse(out["full"]["adjacency"])})
     return ops
@@ -521,7 +577,22 @@ def _slim(case):
     return case
 
 
+def compare_poly(ctx, case, out, mouts):
+    m = mouts[0]
+    if "err" in out or "err" in m:
+        if out.get("err") != m.get("err"):
+            ctx.corr("poly/outcome", case, out.get("err", "ok"), m.get("err", "ok"))
+        return
+    mv = core.unfbits(m["ok"])
+    if not abs(mv - out["area"]) <= AREA_MODEL_TOL:
+        ctx.corr("poly/area_float_model", case, out["area"], mv)
+    else:
+        ctx.extra_cov["poly_float_model_max_abs_dev"] = max(ctx.extra_cov.get("poly_float_model_max_abs_dev", 0.0), abs(mv - out["area"]))
+
+
 def compare(ctx, case, out, mouts):
+    if case["kind"] == "poly":
+        return compare_poly(ctx, case, out, mouts)
     if case["kind"] == "synth":
         m, mu = mouts
         if "err" in out or "err" in m:
@@ -589,7 +660,7 @@ def compare(ctx, case, out, mouts):
         if md is None or not core.close(d, md, rel=4e-16, abs_=0):
             ctx.corr("quat_distance/sign_fold", case, {"pair": [a, b], "theta": th, "value": d}, m)
         ctx.branch("angle_obtuse" if th > math.pi / 2 else "angle_acute")
-    for a, b, pts, val, rank in out["area_in"]:
+    for a, b, pts, val, sing in out["area_in"]:
         m = mouts[pos]; pos += 1
         mv = core.unfbits(m["ok"]) if "ok" in m else None
         if isinstance(val, dict):
@@ -876,7 +947,8 @@ TINY_AREA = 1e-5
 
 def _classify_border_failure(out):
     """The border getter raised.  Returns {key: [pairs]} when every pair of cells on which `_calculate_borders` raises is
-    explained by one of the two known defects, judged from independent data, else None:
+    explained by one of the two (repaired) defects F13 / F14, judged from independent data, else None; the keys only name
+    the regression, they are not listed as open any more:
       F13  AssertionError and the true common face (independent geometry) has spherical area < 1e-5: the Girard sum with
            cosines rounded to 7 decimals comes out negative ("Area cannot be negative!")
       F14  AssertionError, the common face is an ordinary one, the shared vertices span a 3-dimensional subspace up to 1e-11
@@ -903,7 +975,40 @@ def _classify_border_failure(out):
     return keys
 
 
+def _triangle_area(a, b, c):
+    """van Oosterom & Strackee: well conditioned for tiny and for large spherical triangles"""
+    return 2 * math.atan2(abs(float(np.dot(a, np.cross(b, c)))), 1 + float(a @ b) + float(b @ c) + float(c @ a))
+
+
+def oracle_poly(ctx, case, out):
+    """'the border entry is that face's spherical area', on the area code alone"""
+    pts = out["pts"]
+    k = len(pts)
+    c = pts.mean(axis=0)
+    c /= np.linalg.norm(c)
+    e1 = pts[0] - (pts[0] @ c) * c
+    e1 /= np.linalg.norm(e1)
+    e2 = np.cross(c, e1)
+    order = np.argsort(np.arctan2(pts @ e2, pts @ e1))
+    q = pts[order]
+    ref = sum(_triangle_area(q[0], q[i], q[i + 1]) for i in range(1, k - 1))
+    diam = max(float(np.linalg.norm(x - y)) for x in pts for y in pts)
+    ctx.branch("poly_diameter_1e%d" % int(math.floor(math.log10(diam))))
+    if "err" in out:
+        ctx.fail("C04:polygon_area_raises", f"exact_area_of_spherical_polygon raised {out['err']} for a convex spherical {k}-gon of "
+                 f"diameter {diam:.3g} and area {ref:.6g} ({case.get('src')})", case, ref, out["err"])
+        return
+    if not abs(out["area"] - ref) <= POLY_TOL + 1e-12 * ref:
+        ctx.fail("C04:polygon_area_wrong", f"area of a convex spherical {k}-gon of diameter {diam:.3g}: {out['area']!r}, "
+                 f"triangle-fan value {ref!r} ({case.get('src')})", case, ref, out["area"])
+        return
+    if diam < 1e-3:
+        ctx.nt(("poly", hashlib.md5(pts.tobytes()).hexdigest()))
+
+
 def oracle(ctx, case, out):
+    if case["kind"] == "poly":
+        return oracle_poly(ctx, case, out)
     if case["kind"] == "synth":
         return oracle_synth(ctx, case, out)
     N = out["N"]
@@ -915,10 +1020,10 @@ def oracle(ctx, case, out):
             known = _classify_border_failure(out) if sel == "border_len" else None
             if known:
                 for key, prs in known.items():
-                    why = ("the Girard sum (cosines rounded to 7 decimals) of a tiny common face is negative ('Area cannot be "
-                           "negative!')" if key == KEY_TINY else
+                    why = ("the Girard sum of a tiny common face is negative ('Area cannot be negative!'; finding F13, repaired "
+                           "by a2316f0)" if key == KEY_TINY else
                            "np.linalg.matrix_rank of the shared vertices of an ordinary face is 4 at machine precision "
-                           "(fourth singular value ~1e-15 above numpy's default tolerance)")
+                           "(fourth singular value ~1e-15; finding F14, repaired by 35f2358)")
                     ctx.fail(key, f"{tag}: get_cell_borders raised {H['err']}: {why}; cells {prs[:4]} of the full-sphere "
                              "diagram; the border matrix of this grid cannot be computed", case,
                              "a border matrix", {"raised": H["err"], "pairs": prs[:8]})
